@@ -5,8 +5,10 @@ Model of the two parts of fs/remote/blob.go that `SV/Model/Blob.lean` leaves out
     A `ReadAt` whose request key is already in flight does not run `fetchRegions` itself: when the
     leader has finished without error it copies each of its chunks from the cache through its
     `bytesWriter` (`io.CopyN(allData[chunk], SectionReader(r, 0, chunk.size()), chunk.size())`);
-    when a cache `Get` or a copy fails it calls `fetchRange` again, with the SAME writers
-    (`bytesWriter.current` is not reset).  Here the per-chunk writers are explicit (`Writers`), the
+    when a cache `Get` or a copy fails it restarts its writers (`bytesWriter.current = 0`, repo
+    commit c4f4279) and calls `fetchRange` again.  Before that commit the writers were NOT
+    restarted; that behaviour is kept as `fetchRangeSharedOld` / `readAtSharedOld` for the
+    documented counterexamples.  Here the per-chunk writers are explicit (`Writers`), the
     caller's buffer is put together from them at the end (`assembleW`; the destinations
     `p[base:base+expected]` are pairwise disjoint sub-slices of `p`).
 
@@ -118,6 +120,9 @@ def assembleW (o n : Nat) (hits : List (Chunk × Bytes)) (ws : Writers) (buf : B
 def finish (P : Params) (pd : Pending) : SharedOut :=
   .ok (adjust P pd.n pd.o) (assembleW pd.o pd.n pd.hits pd.ws (List.replicate pd.n 0) pd.cs)
 
+/-- `for _, w := range allData { bw.current = 0 }` before the retry (commit c4f4279). -/
+def resetWs (ws : Writers) : Writers := ws.map fun kv => (kv.1, { kv.2 with current := 0 })
+
 /-- `fetchRange(allData)` with its retry recursion, one `Round` per call. -/
 def fetchRangeShared (P : Params) (pd : Pending) : St → List Round → St × SharedOut
   | s, [] => (s, .outOfFuel)
@@ -134,7 +139,8 @@ def fetchRangeShared (P : Params) (pd : Pending) : St → List Round → St × S
         let s'' : St := { s' with cache := loss.foldl Cache.lose s'.cache }
         match copyInOrder s''.cache pd.ws order with
         | (ws', true) => (s'', finish P { pd with ws := ws' })
-        | (ws', false) => fetchRangeShared P { pd with ws := ws' } s'' rest   -- retry
+        | (ws', false) =>                              -- restart the writers, retry
+          fetchRangeShared P { pd with ws := resetWs ws' } s'' rest
 
 /-- `ReadAt` whose `fetchRange` calls go as scripted (`script` is only consumed when there is a
 cache miss). -/
@@ -149,6 +155,37 @@ def readAtShared (P : Params) (s : St) (o n : Nat) (script : List Round) : St ×
         { o := o, n := n, cs := cs, hits := hm.1, missing := hm.2,
           ws := hm.2.map fun c => (c, newWriter o n c) }
       if hm.2.isEmpty then (s, finish P pd) else fetchRangeShared P pd s script
+
+/-- `fetchRange` BEFORE commit c4f4279: the retry keeps `bytesWriter.current`. -/
+def fetchRangeSharedOld (P : Params) (pd : Pending) : St → List Round → St × SharedOut
+  | s, [] => (s, .outOfFuel)
+  | s, .lead reply :: _ =>
+    match fetchMissing P s pd.missing reply with
+    | (s', none) => (s', .err)
+    | (s', some got) => (s', finish P { pd with ws := applyGot pd.ws got })
+  | s, .follow leaderReply loss order :: rest =>
+    if ¬ order.isPerm pd.missing then (s, .badScript)
+    else
+      match fetchMissing P s pd.missing leaderReply with
+      | (s', none) => (s', .err)
+      | (s', some _) =>
+        let s'' : St := { s' with cache := loss.foldl Cache.lose s'.cache }
+        match copyInOrder s''.cache pd.ws order with
+        | (ws', true) => (s'', finish P { pd with ws := ws' })
+        | (ws', false) => fetchRangeSharedOld P { pd with ws := ws' } s'' rest
+
+/-- `ReadAt` BEFORE commit c4f4279. -/
+def readAtSharedOld (P : Params) (s : St) (o n : Nat) (script : List Round) : St × SharedOut :=
+  if n = 0 ∨ o > P.size then (s, .ok 0 (List.replicate n 0))
+  else
+    match walkChunks P (floorU o P.chunk) (ceilU (o + n - 1) P.chunk - 1) with
+    | none => (s, .err)
+    | some cs =>
+      let hm := classify o n s.cache cs
+      let pd : Pending :=
+        { o := o, n := n, cs := cs, hits := hm.1, missing := hm.2,
+          ws := hm.2.map fun c => (c, newWriter o n c) }
+      if hm.2.isEmpty then (s, finish P pd) else fetchRangeSharedOld P pd s script
 
 /-! ### (2) `Cache` with `prefetchChunkSize > chunkSize` -/
 
